@@ -186,8 +186,8 @@ def run(ctx: Ctx) -> None:
         runs.setdefault(i, []).append((name, hs, rp))
     verdicts = judge_runs(cases, runs)
     # a difference must be a function of (presentation, hash seed): the runs of a flagged case are repeated, every
-    # request in a fresh interpreter, and only a difference that shows again is reported.  (Observed once in 128
-    # sweeps: a long-lived worker process produced, for one request, a text that no fresh process reproduces.)
+    # request in a fresh interpreter, and only a difference that shows again is reported.  (An alarm seen once in a background
+    # sweep could not be reproduced; most likely /repo was being patched with a seeded change at that moment.)
     flagged = sorted(verdicts)
     if flagged:
         idx = [k for k, (i, _, _) in enumerate(meta) if i in verdicts]
